@@ -26,6 +26,9 @@ static int witness_case(uint64_t index)
   uint64_t w = index / 2;
   if (w >= (uint64_t)nwit + nwitd) return 0;
   int isd = w >= nwit; const char *path = isd ? witd[w - nwit] : wit[w]; const char *nm = strrchr(path, '/') + 1;
+  /* the memcheck stage keeps every allocation resident in its shadow memory: documents asking for multi-gigabyte matrices are left to the
+   * ASan stage (which caps allocations), as for the generated inputs */
+  if (getenv("VERIF_NO_HUGE_ALLOC") && strstr(nm, "huge")) { hv_stat("witness.skipped_huge_under_memcheck", 1); return 1; }
   size_t len = 0; char *doc = tl_read_file(path, &len);
   if (!doc) { doc = strdup(""); len = 0; }     /* an empty file is a witness too */
   hv_desc("witness %s (%zu bytes), unmutated, backend %s\n", nm, len, backend);
